@@ -54,10 +54,20 @@ type DBSpec struct {
 	Types       []int // pool indices used, all migrated
 	Programs    [][]Op
 	OrBase      bool
+	Shared      *SharedSpec `json:",omitempty"` // a shared Session handle carrying N chain items; shared_find ops add one more
+	NamerDelays [][]int     `json:",omitempty"` // concurrent run: microseconds goroutine g sleeps inside its k-th namer.TableName call (cyclic)
 	WarmTypes   []int `json:",omitempty"` // cold rounds: these types (pool indices) are used once, serially, before the goroutines start
 	SessionPrep bool `json:",omitempty"` // handle opened WITHOUT Config.PrepareStmt; every op runs on its own db.Session(&gorm.Session{PrepareStmt: true})
 	WatchdogSec int `json:",omitempty"` // 0 = 60: seconds after which a round is declared hung
 	SyncOps     int `json:",omitempty"` // the first SyncOps ops of every program start behind a common barrier (0 = 1: start barrier only)
+}
+
+// SharedSpec: db.<Kind item> x N .Session(&gorm.Session{}) on the table of pool type T, built once
+// before the goroutines start.  Kind: joins | wheres | orders | scopes | selects | omits.
+type SharedSpec struct {
+	Kind string
+	N    int
+	T    int
 }
 
 type OpResult struct {
@@ -104,9 +114,11 @@ func goid() int64 {
 
 type recNamer struct {
 	schema.NamingStrategy
-	gids *sync.Map // runtime goroutine id -> worker index
-	mu   sync.Mutex
-	evs  []BuildEv
+	gids   *sync.Map // runtime goroutine id -> worker index
+	mu     sync.Mutex
+	evs    []BuildEv
+	delays [][]int // per worker: microseconds slept inside its k-th TableName call (cyclic); nil = none
+	calls  []int32
 }
 
 func (n *recNamer) TableName(s string) string {
@@ -118,6 +130,12 @@ func (n *recNamer) TableName(s string) string {
 	n.mu.Lock()
 	n.evs = append(n.evs, BuildEv{G: g, Type: s})
 	n.mu.Unlock()
+	if g >= 0 && g < len(n.delays) && len(n.delays[g]) > 0 {
+		k := int(atomic.AddInt32(&n.calls[g], 1)) - 1
+		if d := n.delays[g][k%len(n.delays[g])]; d > 0 {
+			time.Sleep(time.Duration(d) * time.Microsecond)
+		}
+	}
 	return r
 }
 
@@ -214,6 +232,12 @@ func canon(v reflect.Value, depth int) string {
 		return canon(v.Elem(), depth)
 	case reflect.Struct:
 		t := v.Type()
+		if t == reflect.TypeOf(gorm.DeletedAt{}) {
+			if v.Interface().(gorm.DeletedAt).Valid {
+				return "deleted"
+			}
+			return "live"
+		}
 		var sb strings.Builder
 		sb.WriteString(t.Name())
 		sb.WriteByte('{')
@@ -329,6 +353,34 @@ func execOp(h *gorm.DB, base *gorm.DB, op Op, panics *[]string, pmu *sync.Mutex)
 			tx = h.Where(between, op.Lo, op.Hi).Order("id").Find(sl)
 		}
 		return done(tx, canon(reflect.ValueOf(sl), 0))
+	case "shared_find":
+		// one more chain item on the shared handle; the added item carries the goroutine's own arguments
+		if sharedHandle == nil {
+			return OpResult{Err: "harness: no shared handle"}
+		}
+		tbl := poolTables[op.T]
+		sl := d.NewSlice()
+		var tx *gorm.DB
+		switch sharedSpec.Kind {
+		case "joins":
+			tx = sharedHandle.Joins(fmt.Sprintf("JOIN %s AS px ON px.id = %s.id AND px.id BETWEEN ? AND ?", tbl, tbl), op.Lo, op.Hi).Find(sl)
+		case "orders":
+			tx = sharedHandle.Order("id desc").Where(between, op.Lo, op.Hi).Find(sl)
+		case "scopes":
+			lo, hi := op.Lo, op.Hi
+			tx = sharedHandle.Scopes(func(q *gorm.DB) *gorm.DB { return q.Where(between, lo, hi) }).Find(sl)
+		default: // wheres, selects, omits
+			tx = sharedHandle.Where(between, op.Lo, op.Hi).Find(sl)
+		}
+		return done(tx, canon(reflect.ValueOf(sl), 0))
+	case "fresh_missing":
+		// a never-issued text whose PREPARATION fails (the table does not exist)
+		var rows []map[string]interface{}
+		tx := h.Table(fmt.Sprintf("missing_%d", op.Par)).Where("id = ?", op.ID).Find(&rows)
+		return done(tx, fmt.Sprint(len(rows)))
+	case "fresh_missing_exec":
+		tx := h.Exec(fmt.Sprintf("UPDATE missing_%d SET name = ? WHERE id = ?", op.Par), "x", op.ID)
+		return done(tx, "")
 	case "fresh_find", "fresh_take", "fresh_update":
 		// a statement text that is NEW at this step (the tag op.Par is part of the text) and IDENTICAL
 		// for every goroutine at the same step; the bound values select the goroutine's own rows
@@ -514,6 +566,9 @@ func runDB(spec DBSpec, dir string, serial bool) (obs DBObs) {
 	// 2. the handle under test
 	gids := &sync.Map{}
 	namer := &recNamer{gids: gids}
+	if !serial && len(spec.NamerDelays) > 0 {
+		namer.delays, namer.calls = spec.NamerDelays, make([]int32, len(spec.NamerDelays))
+	}
 	db, err := gorm.Open(sqlite.Open(dsn), &gorm.Config{Logger: logger.Discard, PrepareStmt: spec.PrepareStmt && !spec.SessionPrep, NamingStrategy: namer})
 	if err != nil {
 		return fail("open", err)
@@ -550,6 +605,11 @@ func runDB(spec DBSpec, dir string, serial bool) (obs DBObs) {
 	if spec.SessionPrep {
 		db.Session(&gorm.Session{PrepareStmt: true})
 		handle = func() *gorm.DB { return db.Session(&gorm.Session{PrepareStmt: true}) }
+	}
+
+	sharedHandle, sharedSpec = nil, spec.Shared
+	if sh := spec.Shared; sh != nil {
+		sharedHandle = buildShared(db, *sh)
 	}
 
 	var pmu sync.Mutex
@@ -775,6 +835,9 @@ func dumpAll(dsn string) (string, error) {
 			parts := make([]string, len(vals))
 			for i, v := range vals {
 				parts[i] = cell(v)
+				if cols[i] == "deleted_at" && v != nil {
+					parts[i] = "set" // the moment of a soft delete is not an observable
+				}
 			}
 			sb.WriteString(" (" + strings.Join(parts, ",") + ")")
 		}
@@ -1176,7 +1239,7 @@ func watchdogSec(spec DBSpec) int {
 	if spec.WatchdogSec > 0 {
 		return spec.WatchdogSec
 	}
-	return 60
+	return 25
 }
 
 // genFresh: PrepareStmt rounds in which, step by step behind a spin barrier, all goroutines issue the
@@ -1278,5 +1341,130 @@ func genSerial(r *lib.Rng, g int, thorough bool) DBSpec {
 		spec.Programs = append(spec.Programs, prog)
 	}
 	spec.SyncOps = len(spec.Programs[0])
+	return spec
+}
+
+// the shared handle of the current runDB call (one call at a time per process)
+var sharedHandle *gorm.DB
+var sharedSpec *SharedSpec
+
+func buildShared(db *gorm.DB, sh SharedSpec) *gorm.DB {
+	tbl := poolTables[sh.T]
+	h := db.Model(Pool[sh.T].New())
+	cols := []string{"id", "name", "val"}
+	switch sh.Kind {
+	case "selects":
+		var c []string
+		for k := 0; k < sh.N; k++ {
+			c = append(c, cols[k%3])
+		}
+		h = h.Select(c)
+	case "omits":
+		var c []string
+		for k := 0; k < sh.N; k++ {
+			c = append(c, fmt.Sprintf("nocol%d", k))
+		}
+		h = h.Omit(c...)
+	}
+	for k := 0; k < sh.N; k++ {
+		switch sh.Kind {
+		case "joins":
+			h = h.Joins(fmt.Sprintf("LEFT JOIN %s AS b%d ON b%d.id = %s.id AND b%d.val = ?", tbl, k, k, tbl, k), -k-1)
+		case "wheres":
+			h = h.Where("val >= ?", -k-1)
+		case "orders":
+			h = h.Order(cols[k%3])
+		case "scopes":
+			kk := -k - 1
+			h = h.Scopes(func(q *gorm.DB) *gorm.DB { return q.Where("val >= ?", kk) })
+		}
+	}
+	return h.Session(&gorm.Session{})
+}
+
+// genShared: one Session handle carrying N items of one kind (N = 3 and 5..7: a slice with spare
+// capacity; also 1, 2, 4), every goroutine adds ONE more item with its own arguments, step by step
+// behind the spin barrier, and must get exactly its own rows.
+func genShared(r *lib.Rng, i, g int, thorough bool) DBSpec {
+	singles := Families["single"]
+	t := singles[r.Intn(len(singles))]
+	// every slice-valued part of a statement in turn; lengths with spare capacity (3, 5..7) first
+	kind := []string{"joins", "wheres", "joins", "orders", "joins", "scopes", "joins", "selects", "joins", "omits"}[i%10]
+	n := []int{3, 7, 5, 6, 3, 7, 1, 2, 4}[(i/2)%9]
+	if kind != "joins" {
+		n = lib.Pick(r, []int{3, 5, 6, 7, 3, 7, 1, 2, 4})
+	}
+	spec := DBSpec{G: g, Cold: false, PrepareStmt: r.Bool(), Conns: 4, Types: []int{t}, Shared: &SharedSpec{Kind: kind, N: n, T: t}}
+	steps := 8
+	if thorough {
+		steps = 16
+	}
+	for gi := 0; gi < g; gi++ {
+		base := int64(gi) * idSpan
+		prog := []Op{{Kind: "create_batch", T: t, IDs: []int64{base + 1, base + 2, base + 3}, Name: "s", Val: int64(gi)}}
+		for k := 0; k < steps; k++ {
+			prog = append(prog, Op{Kind: "shared_find", T: t, Lo: base + 1, Hi: base + idSpan - 1})
+		}
+		spec.Programs = append(spec.Programs, prog)
+	}
+	spec.SyncOps = len(spec.Programs[0])
+	return spec
+}
+
+// genFailingPrepare: PrepareStmt rounds where, step by step behind the spin barrier, all goroutines
+// first-use the same statement text whose preparation FAILS (missing table); alone, each gets the
+// driver's error.
+func genFailingPrepare(r *lib.Rng, g int, sessionPrep, thorough bool) DBSpec {
+	singles := Families["single"]
+	t := singles[r.Intn(len(singles))]
+	spec := DBSpec{G: g, Cold: false, PrepareStmt: true, SessionPrep: sessionPrep, Conns: 4, Types: []int{t}}
+	steps := 70
+	if thorough {
+		steps = 150
+	}
+	kinds := make([]string, steps)
+	for k := range kinds {
+		kinds[k] = lib.Pick(r, []string{"fresh_missing", "fresh_missing", "fresh_missing_exec", "fresh_take"})
+	}
+	for gi := 0; gi < g; gi++ {
+		base := int64(gi) * idSpan
+		prog := []Op{{Kind: "create_batch", T: t, IDs: []int64{base + 1, base + 2}, Name: "f", Val: 10}}
+		for k := 0; k < steps; k++ {
+			prog = append(prog, Op{Kind: kinds[k], T: t, Par: int64(5000 + k), ID: base + 1 + int64(k%2), Lo: base + 1, Hi: base + idSpan - 1})
+		}
+		spec.Programs = append(spec.Programs, prog)
+	}
+	spec.SyncOps = len(spec.Programs[0])
+	return spec
+}
+
+// genStaggered: a cold start on ONE model type (relation field before DeletedAt) with staggered
+// arrivals: the namer sleeps inside TableName, differently per goroutine, so that some goroutines
+// sit between the first and the second cache look-up while another publishes the schema and parses
+// its relations.  First operation: create with nested children, or find; then more of the same.
+func genStaggered(r *lib.Rng, g int) DBSpec {
+	p, k := poolByName["SdP"], poolByName["SdK"]
+	spec := DBSpec{G: g, Cold: true, PrepareStmt: r.Bool(), Conns: g, Types: []int{p, k}, SyncOps: 1}
+	step := 150 + r.Intn(400)
+	for gi := 0; gi < g; gi++ {
+		base := int64(gi) * idSpan
+		prog := []Op{
+			{Kind: "create", T: p, ID: base + 1, Name: "p", Val: 1, Rel: "Kids", RelT: k, Kids: []int64{base + 11, base + 12}},
+			{Kind: "delete", T: p, ID: base + 1},
+			{Kind: "find", T: p, Lo: base + 1, Hi: base + idSpan - 1},
+			{Kind: "create", T: p, ID: base + 2, Name: "q", Val: 2, Rel: "Kids", RelT: k, Kids: []int64{base + 21}},
+			{Kind: "preload", T: p, Lo: base + 1, Hi: base + idSpan - 1, Rel: "Kids", RelT: k},
+			{Kind: "find", T: k, Lo: base + 1, Hi: base + idSpan - 1},
+		}
+		spec.Programs = append(spec.Programs, prog)
+		// goroutine 0 is fast through SdP's TableName and slow in the nested SdK one (a long relation
+		// phase with the SdP schema already published); the others sit in SdP's TableName for
+		// increasing times
+		if gi == 0 {
+			spec.NamerDelays = append(spec.NamerDelays, []int{0, 6000})
+		} else {
+			spec.NamerDelays = append(spec.NamerDelays, []int{gi * step, 0})
+		}
+	}
 	return spec
 }
